@@ -1,11 +1,120 @@
-(* C04 - a plan is turned into the trajectory that the transition function dictates: statements only. *)
+(* Property C04 - a plan is turned into the trajectory that the transition function dictates.  Statements only;
+   proofs in Proofs/C04_*.v.
+
+   Reading guide
+     Model.Plan.parse_plan d eps allow objs sch init lines   TrajectoryExporter(domain, allow).parse_plan(problem, lines)
+        d: the parsed domain, objs: problem.objects, init: the problem's initial state, lines: the plan lines (any text),
+        sch: for the k-th line, the order in which Operator.apply visits its effect collections (hash sets): the theorems
+        hold for EVERY schedule.  A triplet is (t_prev, t_op, t_next); a state carries its is_init flag.
+     Model.Plan.apply_action d eps (Some objs) allow o a args s   Operator(action a, domain, args, objs).apply(s, allow):
+        the library's transition function.  Model.Exec.is_applicable is Operator.is_applicable.
+     run_effects (Proofs/C04_Plan.v): what apply() does once its guard has let the call through.
+   The theorems are about the model's own step function; C02 (is_applicable = holds) and C03 (apply = successor)
+   identify it with the PDDL semantics, see the corollary section at the end. *)
 From Coq Require Import List String Bool PrimFloat.
-From Verif Require Import Base.Result Base.PyDict Model.Domain Model.Exec Model.Plan Spec.Pddl Spec.Plan Proofs.C04_Plan.
+From Verif Require Import Base.Result Base.PyDict Model.Domain Model.Exec Model.Plan Spec.Pddl Spec.Plan
+  Proofs.C04_Thread Proofs.C04_Plan Proofs.C04_Examples.
 Import ListNotations.
+
+(* The trajectory, for plans of any length and any line texts: one triplet per plan line, in plan order; the first
+   pre-state is the initial state; every pre-state is the preceding post-state; the k-th triplet belongs to the k-th
+   line: its operator is the call written there and its post-state is what apply returns for that call on its
+   pre-state - or the unchanged pre-state when apply raised ValueError; any other exception aborts the whole plan. *)
+Theorem C04_trajectory : forall d eps allow objs sch init lines ts,
+  parse_plan d eps allow objs sch init lines = Ok ts ->
+  List.length ts = List.length lines /\
+  (forall t, hd_error ts = Some t -> t_prev t = {| ms_init := true; ms_st := init |}) /\
+  (forall k t u, nth_error ts k = Some t -> nth_error ts (S k) = Some u -> t_prev u = t_next t) /\
+  (forall k t, nth_error ts k = Some t ->
+     exists line c a,
+       nth_error lines k = Some line /\ parse_action_call line = Ok c /\
+       dget (d_actions d) (ac_name c) = Some a /\
+       t_op t = op_text (ma_name a) (ac_args c) /\ ms_init (t_next t) = false /\
+       match apply_action d eps (Some objs) allow (sch k a) a (ac_args c) (ms_st (t_prev t)) with
+       | Ok s' => ms_st (t_next t) = s'
+       | Err EValue => ms_st (t_next t) = ms_st (t_prev t)
+       | Err _ => False
+       end).
+Proof. exact parse_plan_trajectory. Qed.
+
+(* What apply returns, by the library's own applicability test b:  applicable -> the effects;  inapplicable and not
+   allowed -> ValueError (so the exported step keeps its state);  inapplicable but allowed -> the effects (forced). *)
+Theorem C04_step_cases : forall d eps allow objs a args ga o s b,
+  ground_action d a args = Ok ga ->
+  is_applicable d eps (Some objs) ga s = Ok b ->
+  apply_action d eps (Some objs) allow o a args s =
+  if negb b && negb allow then Err EValue else run_effects d eps ga (Some objs) (fst o) (snd o) s.
+Proof. exact apply_action_cases. Qed.
 
 (* direct application of an inapplicable call without the allow switch is a ValueError *)
 Theorem C04_refusal : forall d eps ga objs o u s,
   is_applicable d eps objs ga s = Ok false ->
   apply_op d eps ga objs false false o u s = Err EValue.
 Proof. exact apply_op_refuses. Qed.
+
+(* ... and for an applicable call the switch does not matter *)
+Theorem C04_allow_irrelevant : forall d eps ga objs o u s allow,
+  is_applicable d eps objs ga s = Ok true ->
+  apply_op d eps ga objs allow false o u s = apply_op d eps ga objs true false o u s.
+Proof. exact apply_op_allow_irrelevant. Qed.
+
+(* ---------- malformed plan lines: what the code does ---------- *)
+(* a line that fails makes parse_plan fail with that error, whatever follows *)
+Theorem C04_error_aborts : forall d eps allow objs sch init l1 line l2 ts1 k,
+  parse_plan d eps allow objs sch init l1 = Ok ts1 ->
+  create_single_triplet d eps allow objs (sch (List.length l1))
+    (end_state _ _ t_next {| ms_init := true; ms_st := init |} ts1) line = Err k ->
+  parse_plan d eps allow objs sch init (l1 ++ line :: l2) = Err k.
+Proof. exact parse_plan_fails_at. Qed.
+
+(* an unknown action name is a KeyError; a line with at most two tokens (blank, "()", "x") an IndexError *)
+Theorem C04_unknown_action : forall d eps allow objs ord prev line c,
+  parse_action_call line = Ok c -> dget (d_actions d) (ac_name c) = None ->
+  create_single_triplet d eps allow objs ord prev line = Err EKey.
+Proof. exact cst_unknown_action. Qed.
+
+Theorem C04_no_call : forall d eps allow objs ord prev line,
+  (List.length (action_tokens line) <= 2)%nat ->
+  create_single_triplet d eps allow objs ord prev line = Err EIndex.
+Proof. exact cst_no_call. Qed.
+
+(* wrong arity is NOT rejected: surplus tokens after the arguments (a trailing comment, a stray name) are ignored by
+   grounding - the step is the step of the call without them, only the printed operator keeps them *)
+Theorem C04_surplus_ignored : forall d eps objs allow a args extra o s,
+  (List.length (ma_sig a) <= List.length args)%nat ->
+  apply_action d eps (Some objs) allow o a (args ++ extra) s = apply_action d eps (Some objs) allow o a args s.
+Proof. exact apply_action_surplus. Qed.
+
+(* ---------- the exported trajectory: first state, then (operator, next state) per triplet ---------- *)
+Theorem C04_export : forall ts items,
+  export ts = Ok items ->
+  List.length items = S (2 * List.length ts) /\
+  (forall t, hd_error ts = Some t -> hd_error items = Some (XState (t_prev t))) /\
+  (forall k t, nth_error ts k = Some t ->
+     nth_error items (S (2 * k)) = Some (XOp [t_op t]) /\ nth_error items (S (S (2 * k))) = Some (XState (t_next t))).
+Proof. exact export_shape. Qed.
+
+(* ---------- the hypotheses are satisfiable: a plan with an inapplicable step in the middle ---------- *)
+(* lines in upper case and odd spacing; without the switch the middle step keeps its state, with it the step is forced *)
+Theorem C04_example_refused :
+  parse_plan ex_dom ex_eps false ex_objs id_schedule ex_init ex_plan = Ok ex_trace_refused /\
+  List.length ex_trace_refused = 3 /\
+  (exists t, nth_error ex_trace_refused 1 = Some t /\ ms_st (t_next t) = ms_st (t_prev t)).
+Proof. exact ex_refused_lemma. Qed.
+
+Theorem C04_example_forced :
+  parse_plan ex_dom ex_eps true ex_objs id_schedule ex_init ex_plan = Ok ex_trace_forced /\
+  (exists t, nth_error ex_trace_forced 1 = Some t /\ ms_st (t_next t) <> ms_st (t_prev t)).
+Proof. exact ex_forced_lemma. Qed.
+
+Print Assumptions C04_trajectory.
+Print Assumptions C04_step_cases.
 Print Assumptions C04_refusal.
+Print Assumptions C04_allow_irrelevant.
+Print Assumptions C04_error_aborts.
+Print Assumptions C04_unknown_action.
+Print Assumptions C04_no_call.
+Print Assumptions C04_surplus_ignored.
+Print Assumptions C04_export.
+Print Assumptions C04_example_refused.
+Print Assumptions C04_example_forced.
